@@ -108,27 +108,67 @@ Proof. intros H. apply nth_error_app2. exact H. Qed.
 
 (* --- the scan of positionContext on valid text ------------------------------------------------------------ *)
 Lemma ctx_scan_skip d z : buf z = d ++ [0] -> ierr z = 0 ->
-  forall bs X p, Forall (fun b => b <> 10 /\ b <> 13) bs -> 0 <= p -> p + len bs <= len d ->
+  forall bs X p, Forall (fun b => b <> 10 /\ b <> 13 /\ b <> 226) bs -> 0 <= p -> p + len bs <= len d ->
   ctx_scan z (bs ++ X) p = ctx_scan z X (p + len bs).
 Proof.
   intros Hb He. induction bs as [|b t IH]; intros X p Hf Hp Hl.
   { change (len []) with 0. rewrite Z.add_0_r. reflexivity. }
-  inversion Hf as [|? ? [H10 H13] Hf']; subst. rewrite len_cons in *. pose proof (len_nonneg t).
+  inversion Hf as [|? ? (H10 & H13 & H226) Hf']; subst. rewrite len_cons in *. pose proof (len_nonneg t).
   cbn [app ctx_scan].
   assert (Herr : (peek_err (with_pos z p) 0 =? 0) = (p <? len d)).
   { apply (peek_err_before d (with_pos z p)); cbn [buf ierr pos with_pos]; [exact Hb|intros; contradiction|lia]. }
   rewrite Herr. replace (p <? len d) with true by (symmetry; apply Z.ltb_lt; lia).
   replace (b =? 10) with false by (symmetry; apply Z.eqb_neq; lia).
   replace (b =? 13) with false by (symmetry; apply Z.eqb_neq; lia).
+  replace (b =? 226) with false by (symmetry; apply Z.eqb_neq; lia).
   cbn [negb]. rewrite andb_false_r. cbn [orb].
   rewrite IH by (try assumption; lia). f_equal. lia.
 Qed.
 
-Lemma cp_bytes_not_nl bs r : cp_ok (bs, r) -> r <> 10 -> r <> 13 -> Forall (fun b => b <> 10 /\ b <> 13) bs.
+Lemma is_break_false r : is_break r = false -> r <> 10 /\ r <> 13 /\ r <> 8232 /\ r <> 8233.
+Proof. unfold is_break. intros H. repeat (apply orb_false_iff in H; destruct H as [H ?]). b2p. lia. Qed.
+
+(* the scan passes over a code point that is not a break *)
+Lemma ctx_scan_cp d z : buf z = d ++ [0] -> ierr z = 0 ->
+  forall bs r X p, cp_ok (bs, r) -> is_break r = false -> 0 <= p -> p + len bs <= len d ->
+  ctx_scan z (bs ++ X) p = ctx_scan z X (p + len bs).
 Proof.
-  intros H H10 H13. destruct (cp_ok_cases bs r H) as [(c & -> & _ & ->)|(c & t & _ & _ & _ & _ & Hall)].
-  - repeat constructor; assumption.
-  - eapply Forall_impl; [|exact Hall]. cbn. intros b Hb. lia.
+  intros Hb He bs r X p Hc Hbr Hp Hl. destruct (is_break_false r Hbr) as (H10 & H13 & HLS & HPS).
+  destruct (cp_ok_inv bs r Hc) as [(c & -> & ? & ?)|[(c & c1 & -> & ? & ? & ?)|[(c & c1 & c2 & -> & ? & ? & ? & Er)|(c & c1 & c2 & c3 & -> & ? & ? & ? & ? & ?)]]].
+  - apply (ctx_scan_skip d z Hb He); try assumption. repeat constructor; lia.
+  - apply (ctx_scan_skip d z Hb He); try assumption. repeat constructor; lia.
+  - destruct (Z.eq_dec c 226) as [E|N].
+    + subst c. rewrite !len_cons in *. change (len []) with 0 in *.
+      cbn [app ctx_scan].
+      assert (Herr : (peek_err (with_pos z p) 0 =? 0) = (p <? len d)).
+      { apply (peek_err_before d (with_pos z p)); cbn [buf ierr pos with_pos]; [exact Hb|intros; contradiction|lia]. }
+      rewrite Herr. replace (p <? len d) with true by (symmetry; apply Z.ltb_lt; lia).
+      cbn [Z.eqb Pos.eqb negb andb orb].
+      assert (Hcont : ctx_scan z (c1 :: c2 :: X) (p + 1) = ctx_scan z X (p + (1 + (1 + (1 + 0))))).
+      { change (c1 :: c2 :: X) with ([c1; c2] ++ X).
+        rewrite (ctx_scan_skip d z Hb He [c1; c2] X (p + 1)); [f_equal; rewrite !len_cons; change (len []) with 0; lia| |lia|rewrite !len_cons; change (len []) with 0; lia].
+        repeat constructor; lia. }
+      destruct (Z.eqb_spec c1 128) as [E1|N1]; [|exact Hcont].
+      replace ((c2 =? 168) || (c2 =? 169)) with false; [exact Hcont|].
+      symmetry. apply orb_false_iff. split; apply Z.eqb_neq; lia.
+    + apply (ctx_scan_skip d z Hb He); try assumption. repeat constructor; lia.
+  - apply (ctx_scan_skip d z Hb He); try assumption. repeat constructor; lia.
+Qed.
+
+(* the scan stops in front of a break (the cursor is inside the data) *)
+Lemma ctx_scan_break z bs r X p : cp_ok (bs, r) -> is_break r = true -> ctx_scan z (bs ++ X) p = Some p.
+Proof.
+  intros Hc Hbr. unfold is_break in Hbr.
+  destruct (Z.eqb_spec r 10) as [E|N10].
+  { subst r. rewrite (cp_ok_ascii bs 10 Hc ltac:(lia)). cbn [app ctx_scan]. cbn [Z.eqb Pos.eqb orb].
+    rewrite orb_true_r. reflexivity. }
+  destruct (Z.eqb_spec r 13) as [E|N13].
+  { subst r. rewrite (cp_ok_ascii bs 13 Hc ltac:(lia)). cbn [app ctx_scan]. cbn [Z.eqb Pos.eqb orb].
+    rewrite orb_true_r. reflexivity. }
+  cbn [orb] in Hbr. apply orb_true_iff in Hbr.
+  assert (Hr : r = 8232 \/ r = 8233) by (destruct Hbr as [H|H]; b2p; [left|right]; exact H).
+  rewrite (cp_ok_lsps bs r Hc Hr). cbn [app ctx_scan]. cbn [Z.eqb Pos.eqb andb orb].
+  destruct Hr as [-> | ->]; reflexivity.
 Qed.
 
 Lemma ctx_scan_valid d z : buf z = d ++ [0] -> ierr z = 0 ->
@@ -144,14 +184,12 @@ Proof.
   - inversion Hok as [|? ? Hc Hok']; subst.
     rewrite bytes_cons in *. cbn [fst] in *. rewrite len_app in Hl.
     pose proof (cp_ok_len bs r Hc). pose proof (len_bytes_nonneg t).
-    cbn [line_rest snd].
-    destruct ((r =? 10) || (r =? 13)) eqn:Hnl.
-    + assert (bs = [r]) by (apply cp_ok_ascii; [exact Hc|apply orb_true_iff in Hnl; destruct Hnl; b2p; lia]).
-      subst bs. cbn [app ctx_scan bytes map concat].
-      rewrite <- orb_assoc, Hnl, orb_true_r. change (len []) with 0. rewrite Z.add_0_r. reflexivity.
-    + apply orb_false_iff in Hnl. destruct Hnl as [H10 H13]. b2p.
-      rewrite <- app_assoc.
-      rewrite (ctx_scan_skip d z Hb He bs _ p (cp_bytes_not_nl bs r Hc H10 H13) Hp ltac:(lia)).
+    cbn [line_rest]. unfold brkc at 1. cbn [snd].
+    destruct (is_break r) eqn:Hbr.
+    + rewrite <- app_assoc. rewrite (ctx_scan_break z bs r _ p Hc Hbr).
+      cbn [bytes map concat]. change (len []) with 0. rewrite Z.add_0_r. reflexivity.
+    + rewrite <- app_assoc.
+      rewrite (ctx_scan_cp d z Hb He bs r _ p Hc Hbr Hp ltac:(lia)).
       rewrite (IH (p + len bs) Hok' ltac:(lia) ltac:(lia)).
       f_equal. rewrite bytes_cons, len_app. cbn [fst]. lia.
 Qed.
@@ -159,28 +197,22 @@ Qed.
 Lemma line_rest_prefix l : exists l', l = line_rest l ++ l'.
 Proof.
   induction l as [|c t (l' & E)]; [exists []; reflexivity|]. cbn [line_rest].
-  destruct ((snd c =? 10) || (snd c =? 13)); [exists (c :: t); reflexivity|].
+  destruct (brkc c); [exists (c :: t); reflexivity|].
   exists l'. cbn [app]. f_equal. exact E.
 Qed.
 
-Lemma line_rest_no_nl l : Forall (fun c => snd c <> 10 /\ snd c <> 13) (line_rest l).
+Lemma line_rest_no_break l : Forall (fun c => brkc c = false) (line_rest l).
 Proof.
   induction l as [|c t IH]; [constructor|]. cbn [line_rest].
-  destruct ((snd c =? 10) || (snd c =? 13)) eqn:E; [constructor|].
-  apply orb_false_iff in E. destruct E. b2p. constructor; [split; assumption|exact IH].
+  destruct (brkc c) eqn:E; [constructor|]. constructor; [exact E|exact IH].
 Qed.
-
-(* the line positionContext prints, for a valid text: the current line before the offset, then everything
-   up to the next \n or \r (U+2028 and U+2029 do not end it) *)
-Definition shown_line (pre cur post : list cp) : list Z :=
-  runes (after_last brkc pre ++ line_rest (cur ++ post)).
 
 Section Ctx.
   Variable graphic : Z -> bool.
 
   Lemma context_line_valid cps off pre cur post :
     Forall cp_ok cps -> located cps off pre cur post ->
-    context_line (final_cursor cps pre) = Some (shown_line pre cur post).
+    context_line (final_cursor cps pre) = Some (whole_line pre cur post).
   Proof.
     intros Hok Hloc. pose proof Hloc as (Hcps & _).
     destruct (final_cursor_facts cps off pre cur post Hok Hloc) as (Hinv & _ & Hpos & Hal).
@@ -197,7 +229,7 @@ Section Ctx.
       rewrite (ctx_scan_valid (bytes cps) z1 Hb1 He (cur ++ post) (len (bytes pre)) Hrest (len_bytes_nonneg pre)) in Hscan.
       - congruence.
       - rewrite Hd, len_app. reflexivity. }
-    rewrite Hctx. f_equal. unfold shown_line.
+    rewrite Hctx. f_equal. unfold whole_line.
     assert (Hlr : Forall cp_ok (line_rest (cur ++ post))) by (rewrite Elr in Hrest; exact (Forall_app_l _ _ _ Hrest)).
     rewrite <- (go_runes_valid0 (after_last brkc pre ++ line_rest (cur ++ post))) by (apply Forall_app; split; assumption).
     f_equal. unfold z1, final_cursor. cbn [start with_start with_pos]. rewrite Hq.
@@ -216,7 +248,7 @@ Section Ctx.
     let line := 1 + breaks (runes pre) in
     let col := 1 + len (last_line (runes pre)) in
     position graphic (bytes cps) off =
-      match (c <- elide (shown_line pre cur post) col ;; render graphic line c) with
+      match (c <- elide (whole_line pre cur post) col ;; render graphic line c) with
       | Some ctx => Done (line, col, ctx)
       | None => Panic
       end.
